@@ -271,6 +271,11 @@ int main(int argc, char **argv)
 		break;
 	}
 
+	if (fflush(stdout) != 0 || ferror(stdout)) {
+		perror("stdout");
+		goto out;
+	}
+
 	status = EXIT_SUCCESS;
 out:
 	sqfs_dir_tree_destroy(n);
